@@ -1884,7 +1884,10 @@ static const Family* find_family(const char* name)
 static void flush_counts(const char* label)
 {
     int i;
-    printf("COUNT %s %" PRIu64 " %" PRIu64 "\n", label, g_cases, g_nontriv);
+    if (g_cases > 0)
+    {
+        printf("COUNT %s %" PRIu64 " %" PRIu64 "\n", label, g_cases, g_nontriv);
+    }
     if (g_tolerated)
     {
         printf("TOL %s tolerated-deviation %" PRIu64 "\n", label, g_tolerated);
@@ -2103,7 +2106,7 @@ int main(int argc, char** argv)
     {
         g_seed = strtoull(argv[2], NULL, 0);
         run_rand(g_seed, strtoull(argv[3], NULL, 0));
-        flush_counts("rand.-");
+        flush_counts("rand");
         printf("DONE\n");
         return 0;
     }
